@@ -70,6 +70,7 @@ def _cav_post(S_):
     cut = z3.SubString(sv(v), 0, z3.If(iv(lim) < 0, z3.If(z3.Length(sv(v)) + iv(lim) < 0, 0, z3.Length(sv(v)) + iv(lim)),
                                        z3.If(iv(lim) > z3.Length(sv(v)), z3.Length(sv(v)), iv(lim))))
     return And(Implies(Val.is_VNone(v), Val.is_VNone(r)),
+               Implies(Val.is_VStr(v), Val.is_VStr(r)),
                Implies(And(Val.is_VStr(v), Val.is_VNone(lim)), r == v),
                Implies(And(Val.is_VStr(v), Val.is_VInt(lim), iv(lim) >= 0), r == Val.VStr(cut)),
                Implies(Or(Val.is_VInt(v), Val.is_VBool(v), Val.is_VFloat(v)), r == v))
@@ -140,6 +141,51 @@ def _set_post(S_, kind):
 
 c.exit_check(_set_post)
 
+
+def _set_effect(S_):
+    """The same whole-view statement as a heap postcondition (so that callers can rely on it): there is a cleaned value cv
+    (None = rejected) such that the store changes as described above.  When the body is verified cv is the value the cleaning
+    call returned; at a call site it is some value with the cleaning contract's properties."""
+    h, n = S_.old, S_.new
+    me, key = S_.a.self, S_.a.key
+    d = h.f(me, "_dict")
+    keys = od_keys(h, d)
+    ml = h.f(me, "max_length")
+    n0 = h.dlen(d)
+    drop0, drop1 = iv(h.f(me, "dropped")), iv(n.f(me, "dropped"))
+    if S_.at_call:
+        cv = S_.fresh("cleaned", Val)
+    else:
+        cl = S_.calls("_clean_attribute")
+        cv = cl[0].result if cl and cl[0].result is not None else VNone
+    zero = And(Val.is_VInt(ml), iv(ml) == 0)
+    same = And(n.dhas_arr(d) == h.dhas_arr(d), n.dval_arr(d) == h.dval_arr(d), n.dlen(d) == n0,
+               n.llen(keys) == h.llen(keys), n.larr(keys) == h.larr(keys))
+    had = h.dhas(d, key)
+    full = And(Val.is_VInt(ml), n0 == iv(ml))
+    oldest = h.lget(keys, 0)
+    k = z3.Const("k!sete", Val)
+    others = lambda excl: z3.ForAll([k], Implies(And(k != key, *[k != e for e in excl]),
+                                                 And(n.dhas(d, k) == h.dhas(d, k), n.dget(d, k) == h.dget(d, k))))
+    stored = And(n.dhas(d, key), n.dget(d, key) == cv)
+    valid_key = And(Val.is_VStr(key), z3.Length(sv(key)) > 0)
+    v = S_.a.value
+    return And(
+        # what a cleaned value can be (primitive inputs): rejected, or a primitive; numbers and booleans pass unchanged
+        Or(Val.is_VNone(cv), Val.is_VInt(cv), Val.is_VBool(cv), Val.is_VFloat(cv), Val.is_VStr(cv)),
+        Implies(And(Not(zero), Not(valid_key)), Val.is_VNone(cv)),
+        Implies(And(Not(zero), valid_key, Or(Val.is_VInt(v), Val.is_VBool(v), Val.is_VFloat(v))), cv == v),
+        Implies(zero, And(same, drop1 == drop0 + 1)),
+        Implies(And(Not(zero), Val.is_VNone(cv)), And(same, drop1 == drop0)),
+        Implies(And(Not(zero), Not(Val.is_VNone(cv)), had), And(stored, n.dlen(d) == n0, drop1 == drop0, others([]))),
+        Implies(And(Not(zero), Not(Val.is_VNone(cv)), Not(had), Not(full)),
+                And(stored, n.dlen(d) == n0 + 1, drop1 == drop0, others([]))),
+        Implies(And(Not(zero), Not(Val.is_VNone(cv)), Not(had), full),
+                And(stored, n.dlen(d) == n0, drop1 == drop0 + 1, Not(n.dhas(d, oldest)), others([oldest]))))
+
+
+c.ens("store-updated-by-the-cleaned-value", _set_effect)
+
 # _clean_attribute as seen by __setitem__ (its own table is proved separately)
 c = contract(AT, "_clean_attribute", ["C18"])
 c.param("key", ANY).param("value", ANY).param("max_len", OPT(INT))
@@ -156,6 +202,8 @@ c.ens("invalid-key-rejected", lambda S_: Implies(Not(And(Val.is_VStr(S_.a.key), 
 c.ens("primitive-cleaned-by-value-rule", lambda S_: Implies(
     And(Val.is_VStr(S_.a.key), z3.Length(sv(S_.a.key)) > 0, Or(Val.is_VInt(S_.a.value), Val.is_VBool(S_.a.value),
                                                                Val.is_VFloat(S_.a.value))), S_.result == S_.a.value))
+c.ens("a-cleaned-primitive-is-a-primitive-or-rejected", lambda S_: Or(
+    Val.is_VNone(S_.result), Val.is_VInt(S_.result), Val.is_VBool(S_.result), Val.is_VFloat(S_.result), Val.is_VStr(S_.result)))
 c.max_paths = 1500
 
 # ---------------------------------------------------------------- BoundedAttributes.__delitem__
@@ -179,12 +227,19 @@ def _prim_dict(S_, d):
     return z3.ForAll([k], Implies(S_.old.dhas(d, k), And(Not(Val.is_VRef(k)), Not(Val.is_VRef(S_.old.dget(d, k))))))
 
 
+def prim_store(h, a):
+    """every key and value of the store is a primitive (the domain these contracts cover; see _clean_attribute)"""
+    d = h.f(a, "_dict")
+    k = z3.Const("k!prims", Val)
+    return z3.ForAll([k], Implies(h.dhas(d, k), And(Not(Val.is_VRef(k)), Not(Val.is_VRef(h.dget(d, k))))))
+
+
 # ---------------------------------------------------------------- BoundedAttributes.__init__ / merge_in / copy / __len__
 c = contract(AT, "BoundedAttributes.__init__", ["C18"])
 c.param("self", OBJ("BoundedAttributes", inv=False)).param("max_length", OPT(INT)).param("attributes", OPT(DICT()))
 c.param("immutable", BOOL).param("max_value_len", OPT(INT))
 c.req("initial-attributes-are-primitive", lambda S_: Or(Val.is_VNone(S_.a.attributes), _prim_dict(S_, S_.a.attributes)))
-c.protects = lambda S_: {"fields": ["max_length", "max_value_len", "_lock", "_dict", "_immutable"], "lists": [], "dicts": []}
+c.protects = lambda S_: {"fields": ["max_length", "max_value_len", "_lock", "_dict", "_immutable", "$okeys"], "lists": [], "dicts": []}
 c.result = NONE
 c.host_ops_exc_base = "Exception"
 c.logged = "BoundedAttributes.__init__"
@@ -193,6 +248,10 @@ c.sig("ValueError", "capacity-must-be-a-non-negative-int", cond=lambda S_: And(V
 c.ens("frozen-last-after-the-initial-fill", lambda S_: And(
     S_.f(S_.a.self, "_immutable") == S_.a.immutable, S_.f(S_.a.self, "max_length") == S_.a.max_length,
     S_.f(S_.a.self, "max_value_len") == S_.a.max_value_len))
+c.ens("holds-only-cleaned-primitives", lambda S_: And(
+    S_.created_during_call(S_.f(S_.a.self, "_dict")), S_.isinst(S_.f(S_.a.self, "_dict"), "OrderedDict"),
+    S_.created_during_call(od_keys(S_.new, S_.f(S_.a.self, "_dict"))),
+    prim_store(S_.new, S_.a.self)))
 
 
 def _init_fill(L):
@@ -203,17 +262,47 @@ def _init_fill(L):
     return [("each-initial-attribute-set-once", And(sets[0].args[0] == L.local("self"), z3.BoolVal(not sets[0].raised)))]
 
 
-c.loop("iter:attributes.items()", body_ensures=_init_fill, body_no_raise=True,
+def _init_inv(L):
+    n = L.now()
+    me = L.local("self")
+    d = n.f(me, "_dict")
+    return And(Val.is_VRef(d), n.typeof(d) == L.cid("OrderedDict"), prim_store(n, me))
+
+
+c.loop("iter:attributes.items()", invariant=_init_inv, body_ensures=_init_fill, body_no_raise=True,
        modifies=lambda L: [("all",)])
 
 c = contract(AT, "BoundedAttributes.merge_in", ["C18"])
 c.param("self", OBJ("BoundedAttributes")).param("attributes", OBJ("BoundedAttributes"))
 c.req("merged-attributes-are-primitive", lambda S_: _prim_dict(S_, S_.old.f(S_.a.attributes, "_dict")))
+c.req("not-merging-a-store-into-itself", lambda S_: And(
+    S_.a.self != S_.a.attributes, S_.old.f(S_.a.self, "_dict") != S_.old.f(S_.a.attributes, "_dict"),
+    od_keys(S_.old, S_.old.f(S_.a.self, "_dict")) != od_keys(S_.old, S_.old.f(S_.a.attributes, "_dict"))))
 c.result = NONE
 c.host_ops_exc_base = "Exception"
 c.logged = "merge_in"
-c.modifies = lambda S_: [("all",)]
+c.modifies = lambda S_: [("dict", S_.old.f(S_.a.self, "_dict")), ("list", od_keys(S_.old, S_.old.f(S_.a.self, "_dict"))),
+                         ("field", S_.a.self, "dropped")]
 c.sig("TypeError", "frozen-container-rejects-every-modification", cond=lambda S_: bv(S_.old.f(S_.a.self, "_immutable")))
+c.ens("a-store-of-primitives-stays-one", lambda S_: Implies(prim_store(S_.old, S_.a.self), prim_store(S_.new, S_.a.self)))
+
+
+def _merge_inv(L):
+    h, n = L.at_entry(), L.now()
+    me = L.pre_local("self")
+    return Implies(prim_store(h, me), prim_store(n, me))
+
+
+def _merge_body(L):
+    sets = [e for e in L.iter_log() if e.label == "BoundedAttributes.__setitem__"]
+    return [("every-merged-attribute-is-set-once-on-this-store", And(
+        z3.BoolVal(len(sets) == 1), sets[0].args[0] == L.pre_local("self") if sets else z3.BoolVal(False)))]
+
+
+c.loop("iter:attributes.items()", invariant=_merge_inv, body_ensures=_merge_body,
+       modifies=lambda L: [("dict", L.at_entry().f(L.pre_local("self"), "_dict")),
+                           ("list", od_keys(L.at_entry(), L.at_entry().f(L.pre_local("self"), "_dict"))),
+                           ("field", L.pre_local("self"), "dropped")])
 
 c = contract(AT, "BoundedAttributes.copy", ["C18"])
 c.param("self", OBJ("BoundedAttributes"))
@@ -251,6 +340,8 @@ c.protects = lambda S_: {"fields": ["_attributes", "_schema_url", "_dict", "$oke
                          "lists": [od_keys(S_.old, S_.old.f(S_.old.f(S_.a.self, "_attributes"), "_dict")),
                                    od_keys(S_.old, S_.old.f(S_.old.f(S_.a.other, "_attributes"), "_dict"))]}
 c.sig("Exception", "attribute-values-misbehave")
+c.ens("result-is-a-new-resource-or-this-one-on-a-schema-conflict", lambda S_: Or(
+    S_.result == S_.a.self, And(S_.created_during_call(S_.result), S_.isinst(S_.result, "Resource"))))
 
 
 def _merge_operands(S_, kind):
